@@ -255,8 +255,16 @@ func runC13(c c13Case, tr *vw.Trace) *vw.Violation {
 					if adv.ip.To4() == nil {
 						return vw.Violationf("gratuitous-arp-for-ipv6", "op %d: ARP announcement for IPv6 address %s", i, adv.ip)
 					}
-					if !adv.matchInterface(name) {
-						return vw.Violationf("gratuitous-on-uncovered-interface", "op %d: unsolicited announcement for %s on %s which the advertisement does not cover", i, adv.ip, name)
+					covered := false
+					for _, advs := range model {
+						for _, a := range advs {
+							if a.ip == adv.ip.String() && a.covers(name) {
+								covered = true
+							}
+						}
+					}
+					if !covered {
+						return vw.Violationf("gratuitous-on-uncovered-interface", "op %d: unsolicited announcement for %s on %s, which no advertisement of the services currently holding the address covers; announced: %v", i, adv.ip, name, model)
 					}
 					for _, fb := range frames {
 						_, p, err := decodeARP(fb)
